@@ -56,6 +56,10 @@ class FnModel:
         self.returns: List[Effect] = []
         self.raises: List[Effect] = []
         w = self.walk
+        # locals naming a sequence built by a comprehension keep their name in guards
+        self.seq_names = {n for n, ds in w.defs.items()
+                          if len(ds) == 1 and ds[0][0] == 'value'
+                          and isinstance(ds[0][1], (ast.ListComp, ast.GeneratorExp, ast.List))}
         # `rng = get_gv_rng_if_none(rng)` rebinding is transparent
         for e in w.events:
             g = self.formula(e.guard)
@@ -86,7 +90,7 @@ class FnModel:
     def formula(self, f):
         """expand locals, rename roles, desugar try/except atoms, drop loop markers"""
         f = strip_iter(f)
-        return self._desugar(self.walk.expand_formula(f, self.ren))
+        return self._desugar(self.walk.expand_formula(f, self.ren, stop=self.seq_names))
 
     def _desugar(self, f):
         k = f[0]
